@@ -80,6 +80,19 @@ def run(ctx, rep):
         else:
             ins = ins[0]
             nxt = st.next_calls(pb, "process")
+            # nothing but the set decides: every return of process() has consulted HashSet::insert
+            esc = pb.must_pass([ins.bb], pb.returns())
+            if esc:
+                r.bad("Uniquness::process#only-the-set-decides", "a row can be dropped or forwarded without the "
+                      "set of row keys being consulted (a return is reachable that has not passed HashSet::insert)",
+                      pb.where(esc[0]))
+            else:
+                r.ok("Uniquness::process#only-the-set-decides", "every return has passed HashSet::insert", ins.where())
+            extra = [f["name"] for f in st.fields if not common.is_box_process(f["ty"]) and "HashSet<" not in f["ty"]]
+            if extra:
+                r.bad("Uniquness#state", "the stage keeps state besides the set of row keys: %s" % extra, pb.where())
+            else:
+                r.ok("Uniquness#state", "fields: the key set and the successor only", pb.where(), nontrivial=False)
             for flag in (True, False):
                 def model(c, av, env, pe, flag=flag):
                     if c.bb == ins.bb:
